@@ -31,29 +31,60 @@ func mentionsText(e ast.Node, sub string) bool {
 	return found
 }
 
-// requireHeightConds: leaf conditions `<x>.Height >= <…>.RequireHeight` in fn; returns nodes.
-func requireHeightConds(fn *ir.Func) []*cfgx.Node {
-	var out []*cfgx.Node
+// rhCond is a leaf condition that decides `<x>.Height >= <…>.RequireHeight`,
+// however it is spelled (>=, <, operands swapped): ge / lt are the edges on
+// which the relation holds / does not hold.
+type rhCond struct {
+	node   *cfgx.Node
+	x, y   ast.Expr // the Height operand and the RequireHeight operand
+	ge, lt *cfgx.Edge
+}
+
+// requireHeightConds finds the require-height tests of fn.
+func requireHeightConds(fn *ir.Func) []rhCond {
+	var out []rhCond
+	isSel := func(e ast.Expr, name string) bool {
+		sel, ok := ast.Unparen(e).(*ast.SelectorExpr)
+		return ok && sel.Sel.Name == name
+	}
 	for _, n := range fn.Graph().Nodes {
 		if n.Block == nil || n.Block.Cond != n.AST || len(n.Succs) != 2 {
 			continue
 		}
 		be, ok := ast.Unparen(n.AST.(ast.Expr)).(*ast.BinaryExpr)
-		if !ok || be.Op != token.GEQ {
+		if !ok {
 			continue
 		}
-		if sel, ok := ast.Unparen(be.Y).(*ast.SelectorExpr); ok && sel.Sel.Name == "RequireHeight" {
-			if sx, ok := ast.Unparen(be.X).(*ast.SelectorExpr); ok && sx.Sel.Name == "Height" {
-				out = append(out, n)
+		x, y, op := be.X, be.Y, be.Op
+		if isSel(x, "RequireHeight") && isSel(y, "Height") {
+			// mirror: a op b  ==  b op' a
+			x, y = y, x
+			switch op {
+			case token.LEQ:
+				op = token.GEQ
+			case token.GTR:
+				op = token.LSS
+			case token.GEQ:
+				op = token.LEQ
+			case token.LSS:
+				op = token.GTR
 			}
+		}
+		if !isSel(x, "Height") || !isSel(y, "RequireHeight") {
+			continue
+		}
+		switch op {
+		case token.GEQ:
+			out = append(out, rhCond{n, x, y, n.Succs[0], n.Succs[1]})
+		case token.LSS:
+			out = append(out, rhCond{n, x, y, n.Succs[1], n.Succs[0]})
 		}
 	}
 	return out
 }
 
-func condShape(e ast.Expr) string {
-	// last three selectors of each side: base.Height >= HardforkV2.RequireHeight
-	be := ast.Unparen(e).(*ast.BinaryExpr)
+// shape: the last two selectors of each operand, e.g. `base.Height >= HardforkV2.RequireHeight`.
+func (c rhCond) shape() string {
 	tail := func(x ast.Expr) string {
 		parts := strings.Split(ir.ExprString(x), ".")
 		if len(parts) > 2 {
@@ -61,7 +92,7 @@ func condShape(e ast.Expr) string {
 		}
 		return strings.Join(parts, ".")
 	}
-	return tail(be.X) + " " + be.Op.String() + " " + tail(be.Y)
+	return tail(c.x) + " >= " + tail(c.y)
 }
 
 func c11r1(c *Ctx) {
@@ -98,20 +129,20 @@ func c11r1(c *Ctx) {
 		good := len(fconds) > 0 && len(wconds) > 0
 		var fe []*cfgx.Edge
 		for _, n := range fconds {
-			fe = append(fe, n.Succs[0])
+			fe = append(fe, n.ge)
 		}
 		for _, call := range finisher.CallsTo(false, addValidated) {
 			if !finisher.OnlyVia(fg.NodeContaining(call.Pos()), fe) {
 				good = false
 			}
 		}
-		if good && condShape(fconds[0].AST.(ast.Expr)) != condShape(wconds[0].AST.(ast.Expr)) {
+		if good && fconds[0].shape() != wconds[0].shape() {
 			good = false
 		}
 		// the worker's checkpoint path is on the true edge of its predicate
 		var we []*cfgx.Edge
 		for _, n := range wconds {
-			we = append(we, n.Succs[0])
+			we = append(we, n.ge)
 		}
 		for _, call := range worker.CallsTo(false, sendCheckpoint) {
 			if !worker.OnlyVia(worker.Graph().NodeContaining(call.Pos()), we) {
@@ -509,7 +540,7 @@ func c11r2(c *Ctx) {
 		wconds := requireHeightConds(worker)
 		good := false
 		if len(wconds) > 0 {
-			elseEdge := wconds[0].Succs[1]
+			elseEdge := wconds[0].lt
 			// assignments resp.blocks = X reachable from the else edge without crossing back
 			for _, node := range g.Nodes {
 				if node.AST == nil {
